@@ -172,8 +172,8 @@ func disabledOtlp(d gostatsd.TimerSubtypes) map[string]interface{} {
 	}
 }
 
-// Close stops the backend's Run loop and the listener.
-func (k *Kit) Close() {
+// Stop stops the backend's Run loop (a socket backend then closes its connection) and leaves the listener open.
+func (k *Kit) Stop() {
 	if k.cancel != nil {
 		k.cancel()
 		select {
@@ -181,6 +181,11 @@ func (k *Kit) Close() {
 		case <-time.After(5 * time.Second):
 		}
 	}
+}
+
+// Close stops the backend's Run loop and the listener.
+func (k *Kit) Close() {
+	k.Stop()
 	if k.Loop != nil {
 		k.Loop.Close()
 	}
